@@ -195,8 +195,6 @@ def run_norms(case, tape):
                     if tuple(float(x) for x in got) != tuple(float(x) for x in wants):
                         raise OracleFail('minmax-differs', dict(layout=lay, got=[float(x) for x in got],
                                                                 want=[float(x) for x in wants]))
-                elif any(x is not None and float(x) != float(y) for x, y in zip(got, wants)):
-                    raise OracleFail('minmax-differs', dict(layout=lay, rank=r, why='another rank got a different value'))
         wantp = ref.l2_phi_ref(PHI, eta)
         probes = {}
         for lay in ('v_parallel_2d', 'mode_solve', 'v_parallel_1d', 'poloidal'):
@@ -268,7 +266,7 @@ def run_collector(case, tape):
             mags = [abs(times[k]) + 1, np.sqrt(wl2p), np.sqrt(want['l2']), mag['l1'], mag['n'],
                     abs(F.min()), abs(F.max()), mag['ke']]
             for j, (a, b, m_) in enumerate(zip(vals, exp, mags)):
-                if abs(a - b) > 2e-10 * max(m_, abs(b)):          # printed with 11 significant digits
+                if abs(a - b) > 1e-7 * max(m_, abs(b)):          # far above any print precision, far below any wiring error
                     raise OracleFail('collector-slot', dict(slot=slot, column=j, got=a, want=b,
                                                             time=times[k], save_step=s, dt=dt))
         probes = {'kind_collector': 1}
@@ -311,9 +309,6 @@ def run_plot(case, tape):
         if tuple(float(x) for x in got) != tuple(float(x) for x in want):
             raise OracleFail('minmax-differs', dict(got=[float(x) for x in got], want=[float(x) for x in want],
                                                     draw=case['draw']))
-        for r, res in enumerate(results):
-            if r != case['draw'] and any(x is not None and float(x) != float(y) for x, y in zip(res['red'], want)):
-                raise OracleFail('minmax-differs', dict(rank=r, why='another rank got a different value'))
         return dict(probes={'kind_plot': 1, 'plot_only_rank': 1})
     M.run(P, case['sched'], rank_fn, post)
     return M.finish(extra=dict(nontrivial=True))
@@ -384,7 +379,12 @@ def run_driver(case, tape):
         checked = 0
         for t in times:
             if t not in byA:
-                continue        # which rows the driver flushes is outside the property; rows that exist must be right
+                # with save interval 1 every step is a save step: its diagnostics are collected into the slot of that
+                # step and written at once, so the row of every time must be there (for other intervals, which rows
+                # the driver flushes at the end is left open: only rows that exist are judged)
+                if rowsA:
+                    raise OracleFail('diagnostic-row-missing', dict(run='interval 1', t=t, have=sorted(byA)))
+                continue
             g_, p_ = info['ck'][t]
             if g_ is None or p_ is None:
                 raise OracleFail('checkpoint-missing', dict(t=t))
@@ -396,7 +396,7 @@ def run_driver(case, tape):
             for row in byA[t]:
                 checked += 1
                 for j, (a, b) in enumerate(zip(row, exp)):
-                    if abs(a - b) > 2e-9 * max(abs(b), 1e-300) + 1e-300:
+                    if abs(a - b) > 1e-7 * max(abs(b), 1e-300) + 1e-300:
                         raise OracleFail('diagnostic-row-wrong', dict(run='interval 1', t=t, column=j, got=a, want=b))
         byB = {}
         for row in rowsB:
@@ -407,7 +407,7 @@ def run_driver(case, tape):
             for row in rws:
                 checked += 1
                 for j, (a, b) in enumerate(zip(row, byA[t][0])):
-                    if abs(a - b) > 2e-9 * max(abs(b), 1e-300) + 1e-300:
+                    if abs(a - b) > 1e-7 * max(abs(b), 1e-300) + 1e-300:
                         raise OracleFail('diagnostic-row-wrong', dict(run='interval %d' % s, t=t, column=j, got=a,
                                                                       want=b, N=N, M=Mm, stop=case['stop']))
         probes = {'kind_driver': 1, 'save_interval_%d' % s: 1, 'driver_rows_checked': checked}
